@@ -3455,177 +3455,357 @@ def extracted_tables(fam):
     return ctab, atab
 
 
+def _dt_it(tstr, fam=None):
+    """(data type, index type) of a container type string: the template arguments of its Container<DT, IT> base class
+    (read from the base initialisers of its constructors - class names are printed with defaulted arguments elided)"""
+    t = re.sub(r"\s+", " ", (tstr or "").replace("const ", "").replace("&", "")).strip()
+    if fam is not None:
+        bases = fam.__dict__.get("_container_base")
+        if bases is None:
+            bases = {}
+            for facts in fam.facts_list:
+                for fn in facts.functions:
+                    if fn.d.get("ctor"):
+                        for i in fn.d.get("inits") or []:
+                            cc = str((i.get("init") or {}).get("ccls", ""))
+                            if i.get("base") and cc.startswith("FEAT::LAFEM::Container<"):
+                                ta = targs(cc)
+                                if len(ta) == 2:
+                                    bases[re.sub(r"\s+", " ", fn.cls).strip()] = (ta[0], ta[1])
+            fam._container_base = bases
+        if t in bases:
+            return bases[t]
+        if not t.startswith("FEAT::") and ("FEAT::LAFEM::" + t) in bases:
+            return bases["FEAT::LAFEM::" + t]
+    ta = targs(t)
+    return (ta[0], ta[1]) if len(ta) >= 2 else None
+
+
+class _CloneEval:
+    """symbolic evaluation of one clone overload for one clone mode: which arrays of each container object alias the
+    arrays of the *source* (the object the clone is taken from).  Objects: 'this', the source parameter, family locals.
+    rel[obj] = {'elements': 'shared' | 'fresh' | 'none' | '?', 'indices': ...}.  Calls on tracked objects are composed
+    from the extracted tables of Container::assign / Container::clone(same type) and Container::move; every other
+    family member that receives a tracked object (T::convert(other), the templated Container::clone, a helper) is
+    evaluated recursively on its own body (bounded depth) - so a clone overload that delegates to convert/assign is
+    judged by what convert/assign really shares."""
+
+    def __init__(self, fam, ctab, atab, mode_name):
+        self.fam, self.ctab, self.atab, self.mode_name = fam, ctab, atab, mode_name
+        self.problems = []
+
+    def run(self, fn, env, src_rels, depth=0, this_rel=None):
+        """src_rels: {parameter decl id: relation dict} for the container parameters that are tracked.
+        -> (rel of this at the exits joined, rel of the returned local or None)"""
+        fam = self.fam
+        with _alias_scope():
+            it = Interp(fam, fn, env=env)
+        _ALIAS.clear()
+        _ALIAS.update(it.aliases)
+        rel_ = {}
+        if this_rel is not None:
+            rel_["this"] = dict(this_rel)
+        for p_ in fn.params:
+            if p_["d"] in src_rels:
+                rel_["%s#%s" % (p_["n"], p_["d"])] = dict(src_rels[p_["d"]])
+        exits = []
+        me = self
+
+        def prob(s_):
+            if s_ not in me.problems:
+                me.problems.append(s_)
+
+        def relof(o):
+            return rel_.get(o)
+
+        def compose(tab_i, tab_e, srcrel):
+            return {"indices": srcrel["indices"] if tab_i == "shared" else "fresh" if tab_i.startswith("fresh") else "?",
+                    "elements": srcrel["elements"] if tab_e == "shared" else "fresh" if tab_e.startswith("fresh") else "?"}
+
+        def call_effect(n):
+            nm = n.get("n")
+            o = obj_id(n.get("obj")) if n.get("obj") is not None else "this"
+            ccls = short(n.get("ccls", ""))
+            if o is None or ccls not in fam.classes or n.get("cstatic"):
+                return False
+            args = n.get("a") or []
+            a0 = obj_id(args[0]) if args else None
+            callee = fam.callee_fn(fn, n)
+            templ = callee is not None and callee.full.count("<") > callee.cls.count("<")
+            if ccls == "Container" and nm == "assign" and len(args) == 1 and a0 is not None:
+                if callee is None:
+                    prob("callee of assign not found")
+                    return True
+                ct, pt = _dt_it(callee.cls, fam), _dt_it(callee.type(callee.params[0]["t"]), fam)
+                tab = me.atab.get((ct[0] == pt[0], ct[1] == pt[1])) if ct and pt else None
+                if tab is None:
+                    prob("no extracted sharing table for %s" % callee.full)
+                    return True
+                srcrel = relof(a0)
+                if srcrel is None:
+                    prob("assign from an untracked object (%s)" % a0.split("#")[0])
+                    return True
+                rel_[o] = compose(tab["indices"], tab["elements"], srcrel)
+                return True
+            if ccls == "Container" and nm == "clone" and len(args) == 2 and a0 is not None and not templ:
+                m = it.const_of(args[1])
+                if m is None or m not in me.ctab:
+                    prob("clone with a mode that is not a constant under clone_mode == %s" % me.mode_name)
+                    return True
+                srcrel = relof(a0)
+                if srcrel is None:
+                    prob("clone from an untracked object (%s)" % a0.split("#")[0])
+                    return True
+                rel_[o] = compose(me.ctab[m][0], me.ctab[m][1], srcrel)
+                return True
+            if ccls == "Container" and nm == "move" and len(args) == 1 and a0 is not None:
+                srcrel = relof(a0)
+                if srcrel is None:
+                    prob("move from an untracked object (%s)" % a0.split("#")[0])
+                    return True
+                rel_[o] = dict(srcrel)
+                rel_[a0] = {"elements": "none", "indices": "none"}
+                return True
+            if nm == "clear" and not args:
+                rel_[o] = {"elements": "none", "indices": "none"}
+                return True
+            if n.get("cconst"):
+                return True
+            # any other member that works on a tracked object: follow its body
+            tracked = [(i, obj_id(a_)) for i, a_ in enumerate(args) if obj_id(a_) is not None and relof(obj_id(a_)) is not None]
+            if callee is None or callee.body is None or callee is fn or depth >= 4:
+                if tracked or relof(o) is not None:
+                    prob("call %s at line %s: body not available / too deep" % (render(n)[:60], n.get("l")))
+                return True
+            if not tracked:
+                if relof(o) is not None and fam.callee_fn(fn, n) is not None:
+                    # a member of an object whose arrays are tracked, receiving no tracked object: harmless only if it does
+                    # not touch the pointer vectors
+                    if any(vec_member(x) for x in walk(callee.body)) or any(is_call(x) and short(x.get("ccls", "")) in fam.classes and not x.get("cconst") for x in walk(callee.body)):
+                        prob("call %s at line %s changes the arrays of a tracked object" % (render(n)[:60], n.get("l")))
+                return True
+            sub_src = {}
+            for i, ao in tracked:
+                if i < len(callee.params):
+                    sub_src[callee.params[i]["d"]] = relof(ao)
+            env2 = it.call_env(callee, n)
+            modeps = [p_["n"] for p_ in callee.params if short(callee.type(p_["t"])).replace("const ", "").strip() == "CloneMode"]
+            if any(mp not in env2 for mp in modeps):
+                prob("call %s at line %s: clone mode argument is not a constant under clone_mode == %s" % (render(n)[:60], n.get("l"), me.mode_name))
+                return True
+            saved = dict(_ALIAS)
+            try:
+                r_this, _ = me.run(callee, env2, sub_src, depth + 1)
+            finally:
+                _ALIAS.clear()
+                _ALIAS.update(saved)
+            if r_this is not None:
+                rel_[o] = r_this
+            return True
+
+        def snapshot():
+            exits.append({k: dict(v) for k, v in rel_.items()})
+
+        ret_local = []
+
+        def ex(n):
+            """True: fell through; False: returned; 'brk': left the enclosing switch"""
+            k = n.get("k")
+            if k == "Block":
+                for s_ in n.get("s", []):
+                    r_ = ex(s_)
+                    if r_ is not True:
+                        return r_
+                return True
+            if k == "Null_":
+                return True
+            if k == "Break":
+                return "brk"
+            if k == "Decl":
+                for v in n.get("vars", []):
+                    t = fn.type(v.get("t"))
+                    if fam.is_family_type(t) and not v.get("ref") and "*" not in t:
+                        init = v.get("init")
+                        o = "%s#%s" % (v["n"], v["d"])
+                        if init is None or (init.get("k") in ("Construct", "TempObj") and not any(obj_id(a_) is not None and relof(obj_id(a_)) is not None for a_ in init.get("a") or [])):
+                            rel_[o] = {"elements": "none", "indices": "none"}
+                        else:
+                            prob("declaration %s at line %s is initialised from a tracked object" % (v["n"], n.get("l")))
+                    elif v.get("init") is not None and any(is_call(x) and short(x.get("ccls", "")) in fam.classes and not x.get("cconst") for x in walk(v["init"])):
+                        prob("declaration %s at line %s" % (v["n"], n.get("l")))
+                return True
+            if k == "If":
+                if n.get("constexpr"):
+                    th, el = n.get("then"), n.get("else")
+                    if th is not None and th.get("k") == "Null_":
+                        return ex(el) if el is not None else True
+                    if el is not None and el.get("k") == "Null_":
+                        return ex(th)
+                    c = n["c"]
+                    cv = it.eval_cond(c)
+                    if cv is None and c.get("k") == "Ref" and c.get("v") is not None:
+                        cv = bool(int(c["v"]))
+                    if el is None and cv is True:
+                        return ex(th)
+                    if el is None and cv is False:
+                        return True
+                v = it.eval_cond(n["c"])
+                if v is True:
+                    return ex(n["then"])
+                if v is False:
+                    return ex(n["else"]) if n.get("else") is not None else True
+                # `if(this == &other)` style guards without effect on the arrays: both sides, must agree
+                th, el = n.get("then"), n.get("else")
+                if not any(is_call(x) and short(x.get("ccls", "")) in fam.classes and not x.get("cconst") for x in walk(n)) and \
+                        not any(x.get("k") == "Return" for x in walk(n)):
+                    return True
+                if th is not None and el is None and all((is_call(x) and x.get("noreturn")) or x.get("k") in ("Block", "Str", "Int", "Ref", "Cast") or not is_call(x)
+                                                        for x in walk(th)) and any(is_call(x) and x.get("noreturn") for x in walk(th)):
+                    return True          # `if(cond) XABORTM(...)`
+                prob("condition %s not decided by clone_mode == %s" % (render(n["c"])[:60], me.mode_name))
+                return False
+            if k == "Return":
+                e = unwrap(n["e"]) if n.get("e") is not None else None
+                if e is not None and e.get("k") == "MCall":
+                    ex(e)
+                elif e is not None and e.get("k") == "Ref" and e.get("dk") == "local":
+                    ret_local.append(dict(relof("%s#%s" % (e["n"], e["d"])) or {"elements": "?", "indices": "?"}))
+                elif e is not None and e.get("k") in ("Construct", "TempObj") and len(e.get("a") or []) == 1 and unwrap(e["a"][0]).get("k") == "Ref":
+                    r0 = unwrap(e["a"][0])
+                    ret_local.append(dict(relof("%s#%s" % (r0["n"], r0["d"])) or {"elements": "?", "indices": "?"}))
+                snapshot()
+                return False
+            if k == "Switch":
+                val = it.const_of(n["c"])
+                if val is None:
+                    prob("switch(%s) not decided by clone_mode == %s" % (render(n["c"])[:60], me.mode_name))
+                    return False
+                body = n.get("body") or {}
+                flat, start, default_at = [], None, None
+                for s_ in (body.get("s", []) if body.get("k") == "Block" else [body]):
+                    inner = s_
+                    while inner is not None and inner.get("k") in ("Case", "Default"):
+                        if inner.get("k") == "Default":
+                            default_at = len(flat)
+                        else:
+                            cv = it.const_of(inner.get("v") or {})
+                            if cv is None:
+                                prob("case label %s not a constant" % render(inner.get("v") or {})[:40])
+                                return False
+                            if cv == val and start is None:
+                                start = len(flat)
+                        inner = inner.get("s")
+                    if inner is not None:
+                        flat.append(inner)
+                if start is None:
+                    start = default_at
+                if start is None:
+                    return True
+                for s_ in flat[start:]:
+                    r_ = ex(s_)
+                    if r_ == "brk":
+                        return True
+                    if r_ is False:
+                        return False
+                return True
+            if k == "MCall":
+                if call_effect(n):
+                    return True
+                return True
+            if is_call(n) and n.get("callee") in ("FEAT::assertion",):
+                return True
+            if is_call(n) and n.get("noreturn"):
+                return False
+            if any(is_call(x) and short(x.get("ccls", "")) in fam.classes and not x.get("cconst") for x in walk(n)) or any(vec_member(x) for x in walk(n)):
+                prob("statement %s at line %s" % (render(n)[:60], n.get("l")))
+            return True
+
+        if ex(fn.body) is True:
+            snapshot()
+        # join of the exits: every exit must agree, else '?'
+        out = None
+        for e_ in exits:
+            r = e_.get("this")
+            if r is None:
+                continue
+            if out is None:
+                out = dict(r)
+            else:
+                for kd in ("elements", "indices"):
+                    if out[kd] != r[kd]:
+                        out[kd] = "shared" if "shared" in (out[kd], r[kd]) else "?"
+        rl = None
+        for r in ret_local:
+            if rl is None:
+                rl = dict(r)
+            else:
+                for kd in ("elements", "indices"):
+                    if rl[kd] != r.get(kd):
+                        rl[kd] = "shared" if "shared" in (rl[kd], r.get(kd)) else "?"
+        return out, rl
+
+
 def cross_clone_rules(ck, fam, seen_fail, rule="C02.clone-cross-type"):
+    """every clone overload of every container class (the templated Container::clone, T::clone(const T<DT2,IT2>&, mode),
+    T::clone(mode) const) x every clone mode x the instantiations present: arrays documented as freshly allocated must not
+    alias the source, whatever the overload delegates to"""
     doc, err = documented_clone_table()
     if doc is None:
         ck.incomplete(rule, err)
         return
     ctab, atab = extracted_tables(fam)
-    fns = [f for f in fam.functions() if f.name == "clone" and short(f.cls) == "Container" and len(f.params) == 2
-           and f.full.count("<") > f.cls.count("<")]
-    combos = set()
-    for fn in fns:
-        ca, fa = targs(fn.cls), targs(fn.full)
-        if len(ca) != 2 or len(fa) != 2:
-            ck.incomplete(rule, "template arguments of %s not recognised" % fn.full)
+    fns = []
+    for f in fam.functions():
+        if f.name != "clone" or f.body is None:
             continue
-        same = (ca[0] == fa[0], ca[1] == fa[1])
-        combos.add(same)
-        src = "%s#%s" % (fn.params[0]["n"], fn.params[0]["d"])
-        modep = fn.params[1]["n"]
-        for mode, (val, want_i, want_e) in sorted(doc.items(), key=lambda kv: kv[1][0]):
-            it = Interp(fam, fn, env={modep: val})
-            rel_ = {}          # object -> {kind: 'shared' (aliases the source) | 'fresh' | 'none'}
-            problems = []
-
-            def call_effect(n):
-                nm = n.get("n")
-                o = obj_id(n.get("obj")) if n.get("obj") is not None else "this"
-                if o is None or short(n.get("ccls", "")) != "Container":
-                    return False
-                args = n.get("a") or []
-                a0 = obj_id(args[0]) if args else None
-                if nm == "assign" and len(args) == 1 and a0 is not None:
-                    callee = fam.callee_fn(fn, n)
-                    if callee is None:
-                        problems.append("callee of assign not found")
-                        return True
-                    c2, f2 = targs(callee.cls), targs(callee.full)
-                    tab = atab.get((c2[0] == f2[0], c2[1] == f2[1])) if len(c2) == 2 and len(f2) == 2 else None
-                    if tab is None:
-                        problems.append("no extracted sharing table for %s" % callee.full)
-                        return True
-                    srcrel = rel_.get(a0, {"elements": "shared", "indices": "shared"} if a0 == src else None)
-                    if srcrel is None:
-                        problems.append("assign from an untracked object")
-                        return True
-                    rel_[o] = {k: (srcrel[k] if tab[k] == "shared" else "fresh" if tab[k].startswith("fresh") else "?") for k in ("elements", "indices")}
-                    return True
-                if nm == "clone" and len(args) == 2 and a0 is not None:
-                    m = it.const_of(args[1])
-                    if m is None or m not in ctab:
-                        problems.append("clone with a mode that is not a constant under clone_mode == %s" % mode)
-                        return True
-                    srcrel = rel_.get(a0, {"elements": "shared", "indices": "shared"} if a0 == src else None)
-                    if srcrel is None:
-                        problems.append("clone from an untracked object")
-                        return True
-                    ci, ce = ctab[m]
-                    rel_[o] = {"indices": srcrel["indices"] if ci == "shared" else "fresh" if ci.startswith("fresh") else "?",
-                               "elements": srcrel["elements"] if ce == "shared" else "fresh" if ce.startswith("fresh") else "?"}
-                    return True
-                if nm == "move" and len(args) == 1 and a0 is not None:
-                    srcrel = rel_.get(a0)
-                    if srcrel is None:
-                        problems.append("move from an untracked object")
-                        return True
-                    rel_[o] = dict(srcrel)
-                    return True
-                if nm in ("clear",):
-                    rel_[o] = {"elements": "none", "indices": "none"}
-                    return True
-                return False
-
-            def ex(n):
-                """returns False when the path has returned"""
-                k = n.get("k")
-                if k == "Block":
-                    for s_ in n.get("s", []):
-                        r_ = ex(s_)
-                        if r_ is not True:
-                            return r_          # False: returned; "brk": left the enclosing switch
-                    return True
-                if k == "Null_":
-                    return True
-                if k == "Break":
-                    return "brk"
-                if k == "Decl":
-                    for v in n.get("vars", []):
-                        t = short(fn.type(v.get("t")))
-                        if t == "Container" and not v.get("ref"):
-                            rel_["%s#%s" % (v["n"], v["d"])] = {"elements": "none", "indices": "none"}
-                        elif v.get("init") is not None and any(is_call(x) and short(x.get("ccls", "")) == "Container" and not x.get("cconst") for x in walk(v["init"])):
-                            problems.append("declaration %s at line %s" % (v["n"], n.get("l")))
-                    return True
-                if k == "If":
-                    if n.get("constexpr"):
-                        th, el = n.get("then"), n.get("else")
-                        if th is not None and th.get("k") == "Null_":
-                            return ex(el) if el is not None else True
-                        if el is not None and el.get("k") == "Null_":
-                            return ex(th)
-                        c = n["c"]
-                        cv = it.eval_cond(c)
-                        if cv is None and c.get("k") == "Ref" and c.get("v") is not None:
-                            cv = bool(int(c["v"]))
-                        if el is None and cv is True:
-                            return ex(th)
-                        if el is None and cv is False:
-                            return True
-                    v = it.eval_cond(n["c"])
-                    if v is True:
-                        return ex(n["then"])
-                    if v is False:
-                        return ex(n["else"]) if n.get("else") is not None else True
-                    problems.append("condition %s not decided by clone_mode == %s" % (render(n["c"])[:60], mode))
-                    return False
-                if k == "Return":
-                    return False
-                if k == "Switch":
-                    val = it.const_of(n["c"])
-                    if val is None:
-                        problems.append("switch(%s) not decided by clone_mode == %s" % (render(n["c"])[:60], mode))
-                        return False
-                    body = n.get("body") or {}
-                    flat, start, default_at = [], None, None
-                    for s_ in (body.get("s", []) if body.get("k") == "Block" else [body]):
-                        inner = s_
-                        while inner is not None and inner.get("k") in ("Case", "Default"):
-                            if inner.get("k") == "Default":
-                                default_at = len(flat)
-                            else:
-                                cv = it.const_of(inner.get("v") or {})
-                                if cv is None:
-                                    problems.append("case label %s not a constant" % render(inner.get("v") or {})[:40])
-                                    return False
-                                if cv == val and start is None:
-                                    start = len(flat)
-                            inner = inner.get("s")
-                        if inner is not None:
-                            flat.append(inner)
-                    if start is None:
-                        start = default_at
-                    if start is None:
-                        return True
-                    for s_ in flat[start:]:
-                        r_ = ex(s_)
-                        if r_ == "brk":
-                            return True
-                        if r_ is False:
-                            return False
-                    return True
-                if k == "MCall":
-                    if call_effect(n):
-                        return True
-                    if n.get("cconst") or short(n.get("ccls", "")) != "Container":
-                        return True
-                    problems.append("call %s at line %s" % (render(n)[:60], n.get("l")))
-                    return True
-                if is_call(n) and n.get("callee") in ("FEAT::assertion",):
-                    return True
-                if is_call(n) and n.get("noreturn"):
-                    return False
-                problems.append("statement %s at line %s" % (render(n)[:60], n.get("l")))
-                return True
-
-            ex(fn.body)
-            got = rel_.get("this")
+        ptypes = [short(f.type(p_["t"])).replace("const ", "").replace("&", "").strip() for p_ in f.params]
+        if len(f.params) == 2 and ptypes[1] == "CloneMode" and fam.is_family_type(f.type(f.params[0]["t"])):
+            if short(f.cls) == "Container" and f.full.count("<") == f.cls.count("<"):
+                continue          # the same-type worker: decided by the clone-table rule itself
+            fns.append((f, "binary"))
+        elif len(f.params) == 1 and ptypes[0] == "CloneMode" and f.d.get("const") and short(f.cls) != "Container":
+            fns.append((f, "value"))
+    combos = set()
+    done = set()
+    for fn, form in fns:
+        cls = short(fn.cls)
+        if form == "binary":
+            ct, pt = _dt_it(fn.cls, fam), _dt_it(fn.type(fn.params[0]["t"]), fam)
+            if ct is None or pt is None:
+                ck.incomplete(rule, "template arguments of %s not recognised" % fn.full)
+                continue
+            same = (ct[0] == pt[0], ct[1] == pt[1])
+            if cls == "Container":
+                combos.add(same)
+            modep = fn.params[1]["n"]
             combo = "%s,%s" % ("sameDT" if same[0] else "diffDT", "sameIT" if same[1] else "diffIT")
+            label = "%s::clone<DT2,IT2>" % cls
+        else:
+            same = (True, True)
+            modep = fn.params[0]["n"]
+            combo = "value"
+            label = "%s::clone(CloneMode)" % cls
+        if (label, combo) in done:
+            continue          # another instantiation (block size, tier) of the same source-level overload and type relation
+        done.add((label, combo))
+        for mode, (val, want_i, want_e) in sorted(doc.items(), key=lambda kv: kv[1][0]):
+            ev = _CloneEval(fam, ctab, atab, mode)
+            saved = dict(_ALIAS)
+            try:
+                if form == "binary":
+                    got, _ = ev.run(fn, {modep: val}, {fn.params[0]["d"]: {"elements": "shared", "indices": "shared"}})
+                else:
+                    # T clone(mode) const: the source is *this; the result is the returned local
+                    _, got = ev.run(fn, {modep: val}, {}, this_rel={"elements": "shared", "indices": "shared"})
+            finally:
+                _ALIAS.clear()
+                _ALIAS.update(saved)
+            problems = ev.problems
             if problems or got is None:
-                ck.incomplete(rule, "%s with clone_mode == %s: %s" % (fkey(fn), mode, "; ".join(problems) or "result never defined"))
+                ck.incomplete(rule, "%s with clone_mode == %s: %s" % (fkey(fn), mode, "; ".join(problems[:3]) or "result never defined"))
                 continue
             for kind, want in (("indices", want_i), ("elements", want_e)):
-                sub = "Container::clone<DT2,IT2>/CloneMode::%s/%s/%s" % (mode, combo, kind)
+                sub = "%s/CloneMode::%s/%s/%s" % (label, mode, combo, kind)
                 if want == "shared":
                     ck.ob(rule, sub, True, "documented as shared: no independence required (extracted: %s)" % got[kind], fn.file, fn.line, trivial=True)
                     continue
@@ -3638,12 +3818,10 @@ def cross_clone_rules(ck, fam, seen_fail, rule="C02.clone-cross-type"):
                         continue
                     seen_fail.add((rule, sub))
                 ck.ob(rule, sub, ok,
-                      "%s, clone_mode == %s: documented %s arrays %s; composed from assign (%s) and clone/move: the result's %s arrays are %s%s" % (
-                          fn.full, mode, kind, want, atab.get(same), kind, got[kind],
+                      "%s, clone_mode == %s: documented %s arrays %s; composed from what the overload delegates to (assign: %s; same-type clone; move; convert): the result's %s arrays are %s%s" % (
+                          fn.full, mode, kind, want, atab.get(same) if form == "binary" else "-", kind, got[kind],
                           "" if ok else " with the source -> the clone is not value-independent"),
                       fn.file, fn.line, sample={"function": fn.full, "mode": mode, "array": kind, "documented": want, "composed": got[kind]})
     need = {(True, False), (False, True), (False, False)}
     if not need <= combos:
         ck.incomplete(rule, "instantiations of the templated Container::clone missing for (same DT, same IT) in %s" % sorted(need - combos))
-
-
